@@ -48,7 +48,7 @@ def lvl(name, n):
 def metrics_einsums(draw, n_min=1, n_max=1, max_vars=3, allow_partition=True):
     """a cascade of simple product Einsums with explicit loop orders and spacetime for every Einsum"""
     n = draw(st.integers(n_min, n_max))
-    kind = draw(st.sampled_from(["plain"] * 5 + ["affine", "flatten", "flatten", "lf3", "lf3"])) if n_min == 1 else "plain"
+    kind = draw(st.sampled_from(["plain"] * 5 + ["affine", "flatten", "flatten", "lf3", "lf3", "flatmerge"])) if n_min == 1 else "plain"
     if kind == "lf3":
         # three tensors co-iterated at one rank (leader-follower intersection of three fibers, any of them leading)
         pl = gen.plain
@@ -75,6 +75,32 @@ def metrics_einsums(draw, n_min=1, n_max=1, max_vars=3, allow_partition=True):
         sp_ = lo[:k] if draw(st.booleans()) else []
         spec["spacetime"]["Z"] = {"space": sp_, "time": [r for r in lo if r not in sp_]}
         spec["hint"] = {"isect": [["K", ["A", "B", "C"]]], "type": "leader-follower"}
+        return spec, {}
+    if kind == "flatmerge":
+        # an input with two ranks that are adjacent in its declaration flattened statically, a loop order that needs the flattened
+        # tensor swizzled, and (hint) a merger bound to that swizzle
+        pl = gen.plain
+        names = list(draw(st.permutations(["M", "K", "N", "P"])))[:draw(st.integers(3, 4))]
+        i = draw(st.integers(0, len(names) - 2))
+        pair = names[i:i + 2]
+        rest = [r for r in names if r not in pair]
+        outr = list(draw(gen.subset(rest)))
+        facs = [{"t": "A", "idx": [pl(r.lower()) for r in names]}]
+        decl = [["A", list(names)]]
+        if draw(st.booleans()):
+            br = list(draw(gen.subset(names, min_size=1)))
+            decl.append(["B", br])
+            facs.insert(draw(st.integers(0, 1)), {"t": "B", "idx": [pl(r.lower()) for r in br]})
+        decl.append(["Z", outr])
+        spec = {"decl": decl, "exprs": [{"out": ["Z", [pl(r.lower()) for r in outr]], "terms": [{"take": None, "factors": facs}]}],
+                "rank_order": {}, "loop_order": {}, "partitioning": {"Z": [["(%s, %s)" % tuple(pair), ["flatten()"]]]},
+                "spacetime": {}, "extra": {}}
+        lo = list(draw(st.permutations(["".join(pair)] + rest)))
+        spec["loop_order"]["Z"] = lo
+        k = draw(st.integers(0, len(lo)))
+        sp_ = lo[:k] if draw(st.booleans()) else []
+        spec["spacetime"]["Z"] = {"space": sp_, "time": [r for r in lo if r not in sp_]}
+        spec["hint"] = {"merger": True}
         return spec, {}
     if kind == "affine":
         # a convolution: followers of a leader-follower intersector may need projection
@@ -365,6 +391,9 @@ def hardware_for(draw, spec, configs=("accel",), force=None):
                 static = "occupancy" not in repr((spec.get("partitioning") or {}).get(out, {}))
                 init = list(decl[t]) if sorted(rs) == sorted(decl[t]) else \
                     (list(PRE_ORDERS.get(out, {}).get(t, [])) if static else [])
+                if static and sorted(rs) != sorted(decl[t]) and sorted(init) == sorted(rs) and draw(st.integers(0, 2)) == 0:
+                    # the stored order is the user's to state: any order of the partitioned / flattened ranks
+                    init = list(draw(st.permutations(list(rs))))
                 if sorted(init) != sorted(rs) or init == list(rs):
                     continue
                 cand.append((t, init, list(rs)))
